@@ -79,8 +79,19 @@ CHECKS.update({
                   'NOT covered (no engine here encodes them): the YAML scanner, float printing precision, arbitrary byte strings.', design='6/C19',
              note='yaml_rust2 accessors (Index<&str>, as_f64 = Real only, as_i64 = Integer only, as_vec) and str::parse are small trusted models; the text level of the property is outside the claim and is only exercised natively by the replay battery (real YAML text through the real reader, to_yaml round trips).'),
 })
+CHECKS.update({
+ 'C12': dict(text='Assume/guarantee composition over the real MIR of the planner: add_intermediate_poses / with_intermediate_poses / interpolate (every added pose strictly inside the straight segment at fraction i/steps, given poses in order with LAND/TRACE/PARK), '
+                  'step_adaptive_linear_transition executed with its recursion (depth <= 2, 3 thorough) over an arbitrary kinematic stack (each element an answer for a pose ON the segment, continued from the previous element, within max_transition_cost; last answers `to`), '
+                  'probe_strategy over summaries (trace = ONBOARDING relocation from the given start + landing solution + steps in order; flags mark exactly the waypoints they describe; interpolated waypoints absent when not requested; '
+                  'success only if every waypoint solved without the robot shape was collision-checked; RRT closing towards collision-aware solutions), plan_rrt wiring (node accepted only if collision free AND within limits) and plan '
+                  '(success <=> some landing solution can be followed through, for ANY hit rayon may return). Bounded: <= 4 interpolated poses per segment, <= 3 stroke poses, scripted outcome kinds with symbolic values.', design='10.8',
+             note='Lower layers are assumptions discharged by C01/C08/C11/C13; slerp is an oracle, so only the translational part of "on the straight segment" is decided; default transition coefficients; f64 read as reals. A native battery runs the real planner on 8 fixed and 60 seeded random scenes and checks every clause on every returned path.'),
+})
 PENDING = {}
-NA = {}
+NA = {
+ 'C20': 'what the property quantifies over (declaration order, XML nesting, name decoration, duplicate copies, limit syntaxes, malformed XML) lives in sxd_document, three regexes and string splitting - library code outside the MIR dump and string-level '
+        'code the real-arithmetic encoder does not model; see DESIGN.md 10.5',
+}
 def main():
     props = [json.loads(l) for l in open(os.path.join(VERIF, 'properties.jsonl'))]
     checks = []
